@@ -1,24 +1,264 @@
 import Lemmas.Cmdline
 /-! # C10 — command-line parsing assigns exactly what the arguments say
 
-`Cmd.scan tbl acc files args` is the model of the argument loop of `(*CmdLine).Parse` (Model/Cmdline.lean): the same
-definition the correspondence driver executes against the Go code on every check.  `tbl` is the option table
-(name ↦ (id, isBool); long and one-rune names in one map, as in the source), `acc id raw` abstracts `Value.Set`
-(does the option accept the raw string), `files` are the response files.  The result is `fatal` or the list of
-recorded assignments `(id, raw)` in order plus the remaining arguments. -/
+`Cmd.scan tbl acc files args` is the model of the argument loop of `(*CmdLine).Parse`, `Cmd.parse` adds the
+declaration of the options (`New`, `NewGeneralOption`/`NewOption`, `SetSingle`, `SetName`, `availableOptions`) in front
+and the help/version exits behind it (Model/Cmdline.lean).  These are the definitions the correspondence driver
+executes against the Go code on every check.  Strings are byte lists.  `tbl` is the option table (name ↦ (id, isBool);
+long and one-rune names in one map, as in the source), `acc id raw` is "`Value.Set` of option `id` accepts `raw`",
+`files` are the response files (path ↦ lines).  The scanner's result is `fatal` (every `FatalMsg` path, i.e. exit
+status 1 through `atexit.Exit`) or the recorded assignments `(id, raw)` in order plus the remaining arguments; the
+final contents of an option variable are `Cmd.finalRaws` of that record (last value for a scalar, initial contents
+followed by all values for a slice).
+
+A `Cmd.Spell` is one item of the vector in one of the valid spellings `--name=value`, `--name value`, `--flag`,
+`-n value`, `-nvalue`, `-n=value`, `-abc` (grouped flags), the short value forms optionally with grouped flags in
+front (`-abn value` …).  `Spell.Valid` collects the side conditions under which a spelling means what it says
+(declared names of the right arity; long names non-empty without `=`; short names one rune each, the first of an
+argument not `-`; an attached value non-empty and not starting with `=`; the value accepted by `Set`). -/
 namespace C10
 open Cmd
 
-/-- **parse ∘ render**: for every table, every list of assignments each written in any valid spelling
-    (`--name=value`, `--name value`, `-n value`, `-nvalue`, `-n=value`, `--flag`, grouped flags `-abc`, and grouped
-    flags in front of a short value option), followed by nothing, by `--` and arbitrary arguments, or by positionals
-    whose first does not start with `-`/`@`: the scanner records exactly the assignments, in order, and returns
-    exactly the positionals — whatever response files exist. -/
+/-! ## valid vectors -/
+
+/-- **parse ∘ render** (main clause).  For every table, every list of assignments each written in any valid
+    spelling, followed by nothing, by `--` and *arbitrary* arguments, or by positionals whose first does not start
+    with `-`/`@`: the scanner records exactly the assignments, in order, and returns exactly the positionals —
+    whatever response files exist. -/
 theorem parse_render (tbl : Table) (acc : Accepts) (files : Files) (sps : List Spell)
     (hv : ∀ sp ∈ sps, sp.Valid tbl acc) (t : Tail) (ht : t.OK) :
     scan tbl acc files (sps.flatMap Spell.args ++ t.args) = .ok ⟨sps.flatMap Spell.sets, t.rest⟩ := by
   unfold scan
   rw [run_render tbl acc files sps hv t ht]
   simp
+
+/-- the same for the whole of `Parse` on a declared command line: if the declarations are accepted
+    (`build = some es`), the spellings are valid for the table built from them and for the typed `Set` of the declared
+    kinds, and none of the built-in help/version options is among the assignments, `Parse` returns normally with
+    exactly these assignments and positionals. -/
+theorem parse_render_declared (orc : Oracle) (incl : Bool) (decls : List Decl) (files : Files) (es : Entries)
+    (hb : build incl decls = some es) (sps : List Spell)
+    (hv : ∀ sp ∈ sps, sp.Valid (tableOf es) (acceptsOf orc incl decls)) (t : Tail) (ht : t.OK)
+    (hu : ∀ s ∈ sps.flatMap Spell.sets, firstUserId ≤ s.1) :
+    parse orc incl decls files (sps.flatMap Spell.args ++ t.args) = .done ⟨sps.flatMap Spell.sets, t.rest⟩ := by
+  unfold parse
+  rw [hb]
+  simp only
+  rw [parse_render _ _ files sps hv t ht]
+  exact finish_user _ hu
+
+/-- every declared name is bound in the table to its own option (id = position of the declaration) with the right
+    arity: the one-rune name under the UTF-8 encoding of the rune, the long name under itself -/
+theorem declared_names_in_table (incl : Bool) (decls : List Decl) (es : Entries) (h : build incl decls = some es)
+    (i : Nat) (d : Decl) (hd : decls[i]? = some d) :
+    (d.single ≠ 0 → tableOf es (encodeRune d.single) = some ⟨firstUserId + i, d.kind.isBool⟩) ∧
+    (∀ n, d.name = some n → tableOf es n = some ⟨firstUserId + i, d.kind.isBool⟩) :=
+  build_spec incl decls es h i d hd
+
+/-- every Unicode scalar value — ASCII or multi-byte — is a legitimate one-character option name: its encoding is
+    read back as that one rune by the short-option loop (the `IsRune` side condition of the short spellings) -/
+theorem short_name_any_rune (r : Int) (h0 : 0 ≤ r) (h1 : r ≤ 1114111) (hs : r < 55296 ∨ 57343 < r) :
+    IsRune (encodeRune r) :=
+  isRune_encodeRune r h0 h1 hs
+
+/-- a boolean flag's `Set("true")` always succeeds (so the acceptance condition of the flag spellings is met by every
+    declared `*bool` option and by the built-in ones) -/
+theorem flag_accepts_true (orc : Oracle) : typed orc .bool strTrue = some "true" := by
+  simp [typed, parseBool, strTrue]
+  rfl
+
+/-- for a declared option the abstract acceptance is the typed `Set` of its kind (values.go) -/
+theorem declared_accepts (orc : Oracle) (incl : Bool) (decls : List Decl) (i : Nat) (d : Decl)
+    (hd : decls[i]? = some d) (v : Str) :
+    acceptsOf orc incl decls (firstUserId + i) v = (typed orc d.kind.base v).isSome :=
+  acceptsOf_user orc incl decls i d hd v
+
+/-- an accepted signed integer fits the declared width, so the narrowing conversion in values.go stores it exactly -/
+theorem int_value_in_range (bits : Nat) (s : Str) (v : Int) (h : parseInt bits s = some v) :
+    -((2 ^ (bits - 1) : Nat) : Int) ≤ v ∧ v < ((2 ^ (bits - 1) : Nat) : Int) :=
+  parseInt_range bits s v h
+
+/-- … likewise unsigned -/
+theorem uint_value_in_range (bits : Nat) (s : Str) (v : Int) (h : parseUint bits s = some v) :
+    0 ≤ v ∧ v < ((2 ^ bits : Nat) : Int) :=
+  parseUint_range bits s v h
+
+/-- the hypotheses of `parse_render_declared` follow from the declarations alone: for a declared value-taking option
+    with a one-rune name (any Unicode scalar value except `-`) the spellings `-n value` and `-n=value` are valid for
+    every value its typed `Set` accepts … -/
+theorem declared_short_spellings_valid (orc : Oracle) (incl : Bool) (decls : List Decl) (es : Entries)
+    (hb : build incl decls = some es) (i : Nat) (d : Decl) (hd : decls[i]? = some d)
+    (h0 : 0 < d.single) (h1 : d.single ≤ 1114111) (hs : d.single < 55296 ∨ 57343 < d.single) (h45 : d.single ≠ 45)
+    (hk : d.kind.isBool = false) (v : Str) (hv : (typed orc d.kind.base v).isSome = true) :
+    (Spell.shortSep [] (encodeRune d.single) ⟨firstUserId + i, false⟩ v).Valid (tableOf es) (acceptsOf orc incl decls) ∧
+    (Spell.shortEq [] (encodeRune d.single) ⟨firstUserId + i, false⟩ v).Valid (tableOf es) (acceptsOf orc incl decls) :=
+  declared_short_valid orc incl decls es hb i d hd h0 h1 hs h45 hk v hv
+
+/-- … and with a long name that contains no `=`, `--name=value` and `--name value` are -/
+theorem declared_long_spellings_valid (orc : Oracle) (incl : Bool) (decls : List Decl) (es : Entries)
+    (hb : build incl decls = some es) (i : Nat) (d : Decl) (hd : decls[i]? = some d) (n : Str)
+    (hn : d.name = some n) (heq : 61 ∉ n) (hk : d.kind.isBool = false) (v : Str)
+    (hv : (typed orc d.kind.base v).isSome = true) :
+    (Spell.longEq n ⟨firstUserId + i, false⟩ v).Valid (tableOf es) (acceptsOf orc incl decls) ∧
+    (Spell.longSep n ⟨firstUserId + i, false⟩ v).Valid (tableOf es) (acceptsOf orc incl decls) :=
+  declared_long_valid orc incl decls es hb i d hd n hn heq hk v hv
+
+/-- **positional tail verbatim**: once collection has begun (after `--` or the first positional) every further
+    argument is returned unchanged, whatever it looks like (`-x`, `--name=v`, `--`, `@file`, empty, …) -/
+theorem positional_tail_verbatim (tbl : Table) (acc : Accepts) (files : Files) (seen : List Str) (a : PAcc)
+    (pos : List Str) :
+    run tbl acc files seen a .collect pos = .ok { a with rest := a.rest ++ pos } :=
+  run_collect tbl acc files seen a pos
+
+/-! ## final contents of the option variables -/
+
+/-- **unmentioned options keep their defaults**: an option that no assignment names ends with the same contents as
+    after parsing no arguments at all -/
+theorem unmentioned_untouched (k : Kind) (defs : List Str) (id : Nat) (sets : List (Nat × Str))
+    (h : ∀ s ∈ sets, s.1 ≠ id) : finalRaws k defs id sets = finalRaws k defs id [] :=
+  finalRaws_unmentioned k defs id sets h
+
+/-- … and a scalar option initialised with one value then still holds that value -/
+theorem unmentioned_scalar (k : Kind) (hs : k.slice = false) (hl : k.base ≠ .log) (d : Str) (id : Nat) :
+    finalRaws k [d] id [] = [d] := by
+  have hl' : (k.base == Base.log) = false := by simpa using hl
+  simp [finalRaws, hs, hl', assigned]
+
+/-- **last assignment wins** for a scalar option -/
+theorem last_assignment_wins (k : Kind) (hs : k.slice = false) (hl : k.base ≠ .log) (defs : List Str) (id : Nat)
+    (s1 s2 : List (Nat × Str)) (v : Str) (h : ∀ s ∈ s2, s.1 ≠ id) :
+    finalRaws k defs id (s1 ++ (id, v) :: s2) = [v] :=
+  finalRaws_last k hs hl defs id s1 s2 v h
+
+/-- **slice options append**: initial contents, then every assigned value in order -/
+theorem slice_appends (k : Kind) (hk : k.slice = true) (defs : List Str) (id : Nat) (s1 s2 : List (Nat × Str))
+    (v : Str) :
+    finalRaws k defs id (s1 ++ (id, v) :: s2) = defs ++ assigned id s1 ++ v :: assigned id s2 := by
+  rw [finalRaws_append k (Or.inl hk), assigned_append, assigned_cons_self]
+  simp
+
+/-! ## response files -/
+
+/-- **response-file split.**  `pre` ends at an option boundary (`hb`: after `pre` the scanner is looking for an
+    option again), file `f` holds the run `ins`, `f` has not been loaded before and no file or later argument mentions
+    `@f` again ("no path repeats"): writing `@f` instead of the run gives the same result — the same assignments and
+    positionals, or fatal in both cases.  Nesting is covered: the theorem holds for any set `seen` of already loaded
+    paths and `ins` may itself contain references, so it can be applied again inside. -/
+theorem response_split (tbl : Table) (acc : Accepts) (files : Files) (pre post ins : List Str) (f : Str)
+    (seen seen₁ : List Str) (a a₁ : PAcc)
+    (hb : ∀ tail, run tbl acc files seen a .look (pre ++ tail) = run tbl acc files seen₁ a₁ .look tail)
+    (hf : files.lookup f = some ins) (hfresh : f ∉ seen₁) (h1 : FilesNoRef files f) (h3 : NoRef f post) :
+    run tbl acc files seen a .look (pre ++ (64 :: f) :: post) = run tbl acc files seen a .look (pre ++ (ins ++ post)) :=
+  run_response_split tbl acc files pre post ins f seen seen₁ a a₁ hb hf hfresh h1 h3
+
+/-- the boundary hypothesis of `response_split` holds behind any list of valid spellings -/
+theorem spellings_end_at_boundary (tbl : Table) (acc : Accepts) (files : Files) (sps : List Spell)
+    (hv : ∀ sp ∈ sps, sp.Valid tbl acc) (seen : List Str) (a : PAcc) (tail : List Str) :
+    run tbl acc files seen a .look (sps.flatMap Spell.args ++ tail) =
+      run tbl acc files seen (addSets a (sps.flatMap Spell.sets)) .look tail :=
+  run_spells tbl acc files sps hv seen a tail
+
+/-- the split theorem for a whole vector: valid spellings, then `@f`, then anything -/
+theorem response_split_scan (tbl : Table) (acc : Accepts) (files : Files) (sps : List Spell)
+    (hv : ∀ sp ∈ sps, sp.Valid tbl acc) (post ins : List Str) (f : Str)
+    (hf : files.lookup f = some ins) (h1 : FilesNoRef files f) (h3 : NoRef f post) :
+    scan tbl acc files (sps.flatMap Spell.args ++ (64 :: f) :: post) =
+      scan tbl acc files (sps.flatMap Spell.args ++ (ins ++ post)) := by
+  unfold scan
+  exact run_response_split tbl acc files _ post ins f [] [] {} _
+    (fun tail => run_spells tbl acc files sps hv [] {} tail) hf (by simp) h1 h3
+
+/-- the other direction without any freshness condition: whenever the vector that mentions `@f` at an option
+    boundary is accepted, the vector with the file's lines written out in place is accepted with the same result
+    (a repeated path makes the split vector fatal, so the hypothesis excludes it by itself) -/
+theorem response_inline (tbl : Table) (acc : Accepts) (files : Files) (pre post ins : List Str) (f : Str)
+    (seen seen₁ : List Str) (a a₁ r : PAcc)
+    (hb : ∀ tail, run tbl acc files seen a .look (pre ++ tail) = run tbl acc files seen₁ a₁ .look tail)
+    (hf : files.lookup f = some ins)
+    (h : run tbl acc files seen a .look (pre ++ (64 :: f) :: post) = .ok r) :
+    run tbl acc files seen a .look (pre ++ (ins ++ post)) = .ok r :=
+  run_response_inline tbl acc files pre post ins f seen seen₁ a a₁ r hb hf h
+
+/-- loading a path twice is fatal (the recursion guard), also when the second reference is not recursive -/
+theorem repeated_path_fatal (tbl : Table) (acc : Accepts) (files : Files) (seen : List Str) (a : PAcc) (f : Str)
+    (args : List Str) (h : f ∈ seen) : run tbl acc files seen a .look ((64 :: f) :: args) = .fatal := by
+  simp [run_at, h]
+
+/-- a reference to a file that cannot be read is fatal -/
+theorem missing_file_fatal (tbl : Table) (acc : Accepts) (files : Files) (seen : List Str) (a : PAcc) (f : Str)
+    (args : List Str) (h : files.lookup f = none) : run tbl acc files seen a .look ((64 :: f) :: args) = .fatal := by
+  by_cases hs : f ∈ seen <;> simp [run_at, hs, h]
+
+/-! ## observations outside the property (Appendix B of the design: not claimed, recorded as what the code does) -/
+
+/-- a bare `-` where an option is expected is silently dropped -/
+theorem observation_bare_dash_dropped (tbl : Table) (acc : Accepts) (files : Files) (seen : List Str) (a : PAcc)
+    (args : List Str) : run tbl acc files seen a .look ([45] :: args) = run tbl acc files seen a .look args :=
+  run_bare_dash tbl acc files seen a args
+
+/-- a response-file reference in value position is taken literally as the value -/
+theorem observation_reference_in_value_position (tbl : Table) (acc : Accepts) (files : Files) (seen : List Str)
+    (a : PAcc) (o : Opt) (f : Str) (args : List Str) :
+    run tbl acc files seen a (.value o) ((64 :: f) :: args) =
+      (match Cmd.set acc a o (64 :: f) with
+       | none => .fatal
+       | some a' => run tbl acc files seen a' .look args) :=
+  run_value tbl acc files seen a o (64 :: f) args
+
+/-! ## malformed vectors -/
+
+/-- **malformed ⇒ fatal.**  Behind any valid spellings, an unknown long or short option, a value given to a boolean
+    flag (`--flag=v`), a value-taking option at the very end without its value, or any spelling whose value the
+    option's `Set` rejects (`Cmd.Malformed`) makes the scanner take the fatal path — whatever follows. -/
+theorem malformed_fatal (tbl : Table) (acc : Accepts) (files : Files) (sps : List Spell)
+    (hv : ∀ sp ∈ sps, sp.Valid tbl acc) (l : List Str) (h : Malformed tbl acc l) :
+    scan tbl acc files (sps.flatMap Spell.args ++ l) = .fatal := by
+  unfold scan
+  rw [run_spells tbl acc files sps hv]
+  exact run_malformed tbl acc files l h _ _
+
+/-- … and so does `Parse` as a whole (`fatal` = exit status 1 through `atexit.Exit`) -/
+theorem malformed_fatal_declared (orc : Oracle) (incl : Bool) (decls : List Decl) (files : Files) (es : Entries)
+    (hb : build incl decls = some es) (sps : List Spell)
+    (hv : ∀ sp ∈ sps, sp.Valid (tableOf es) (acceptsOf orc incl decls)) (l : List Str)
+    (h : Malformed (tableOf es) (acceptsOf orc incl decls) l) :
+    parse orc incl decls files (sps.flatMap Spell.args ++ l) = .fatal := by
+  unfold parse
+  rw [hb]
+  simp only
+  rw [malformed_fatal _ _ files sps hv l h]
+  rfl
+
+/-- declarations that cannot be told apart (a duplicate name, an option without any name, a long name shorter than
+    two bytes) never reach the scanner: `build = none` is the fatal exit -/
+theorem bad_declarations_fatal (orc : Oracle) (incl : Bool) (decls : List Decl) (files : Files) (args : List Str)
+    (h : build incl decls = none) : parse orc incl decls files args = .fatal := by
+  simp [parse, h]
+
+/-! ## the hypotheses are satisfiable (non-vacuity)
+
+one table with a string option `n`/`name` (id 3) and a flag `a` (id 4); the vector `-an=x --name y -- -n`. -/
+
+example : ∀ sp ∈ exSpells, sp.Valid exTbl (fun _ _ => true) := exValid
+
+example : scan exTbl (fun _ _ => true) [] (exSpells.flatMap Spell.args ++ (Tail.sep [[45, 110]]).args) =
+    .ok ⟨[(4, strTrue), (3, [120]), (3, [121])], [[45, 110]]⟩ :=
+  parse_render exTbl _ [] exSpells exValid (Tail.sep [[45, 110]]) trivial
+
+example : Malformed exTbl (fun _ _ => true) [[45, 45, 110, 111]] :=
+  .unknownLong [110, 111] [] (by simp) (by simp [splitEq, exTbl, tableOf, List.lookup])
+
+/-! the hypotheses of `response_split_scan`: a file `f` holding `-a`, referenced once -/
+example : FilesNoRef [([102], [[45, 97]])] [102] := by
+  intro e he
+  simp only [List.mem_cons, List.mem_nil_iff, or_false] at he
+  subst he
+  simp [NoRef]
+
+example : scan exTbl (fun _ _ => true) [([102], [[45, 97]])] [[64, 102], [120]] =
+    scan exTbl (fun _ _ => true) [([102], [[45, 97]])] [[45, 97], [120]] :=
+  response_split_scan exTbl _ _ [] (by simp) [[120]] [[45, 97]] [102] rfl
+    (by intro e he; simp only [List.mem_cons, List.mem_nil_iff, or_false] at he; subst he; simp [NoRef])
+    (by simp [NoRef])
 
 end C10
